@@ -20,9 +20,11 @@ import (
 	"os"
 	"path/filepath"
 	"reflect"
+	"runtime"
 	"sort"
 	"strconv"
 	"strings"
+	"sync"
 	"time"
 	"unicode/utf8"
 
@@ -325,6 +327,29 @@ func runLoad(kind string, consumers int, base string, files []kv) (i18 *i18mem.I
 		panicked bool
 	}
 	done := make(chan res, 1)
+	// Readers are allowed while the loader runs (a server translates while a language pack is loaded): two
+	// goroutines keep asking for keys until Load has returned.  What they get is not judged; what is judged
+	// afterwards is that every key of every loaded file translates.
+	stopReaders := make(chan struct{})
+	var readers sync.WaitGroup
+	for g := 0; g < 2; g++ {
+		readers.Add(1)
+		go func(g int) {
+			defer readers.Done()
+			for i := 0; ; i++ {
+				select {
+				case <-stopReaders:
+					return
+				default:
+				}
+				hx.Guard(func() { i18.Translate(fmt.Sprintf("probe.%d.%d", g, i%7)) })
+				if i%64 == 63 {
+					runtime.Gosched()
+				}
+			}
+		}(g)
+	}
+	defer func() { close(stopReaders); readers.Wait() }()
 	go func() {
 		var r res
 		r.panicked, _ = hx.Guard(func() { r.err = fsi18loader.Load(fs, base, i18, nil) })
